@@ -26,7 +26,8 @@ RULE = ('template trees over 13 node kinds (constant, table hold/jump/linear, po
         'channel renaming and dropping inside the tree and at the top, for-loops with empty / single / negative-step '
         'ranges, repetition counts 0..3 or following the loop index; malformed stream: missing parameter, non-integer '
         'count / range, zero step, non-monotone table, unequal durations; constant-folding stream: equal-voltage constant '
-        'siblings around reversed / count-1 repeated / reversed-repeated sequences of ramps; tables with one, two or '
+        'siblings around reversed / count-1 repeated / reversed-repeated sequences of ramps; the operator table of '
+        'ArithmeticPT (operand order x operator x scalar form plain / all channels / strict subset); tables with one, two or '
         '(3 %) three entries at the final time.  Grid: every multiple of 1/4 up to the '
         'duration (sub-sampled to <= 40 points, all junctions of the generated trees lie on it) + off-grid points + '
         't = duration; the same grid read through plotting.render(sample_rate=4) (+ all rendered points compared with '
@@ -70,6 +71,8 @@ def gen_cases(rng, tier, ctx):
     # constant siblings at equal voltage around nested non-constant sub-programs (constant folding in to_waveform)
     for _ in range(70 if tier == 'quick' else 1500):
         cases.append(G.gen_fold_case(rng))
+    # the operator table of ArithmeticPT: operand order x operator x scalar form (plain / all channels / strict subset)
+    cases.extend(G.gen_arith_cases(rng, bodies=2 if tier == 'quick' else 40))
     # single tables over a small alphabet of times / values (de-duplication and constant detection of from_table)
     for _ in range(90 if tier == 'quick' else 3000):
         cases.append(G.gen_table_case(rng))
@@ -394,6 +397,8 @@ def histogram_keys(case, obs):
         keys.append('table-final-triple')
     if case.get('tables'):
         keys.append('table-stream')
+    if 'arith_table' in case:
+        keys.append('arith-table:' + case['arith_table'].split('/', 1)[1])
     if 'fold' in case:
         keys.append('fold-stream')
         keys.append('fold:' + case['fold'].split('/')[1])
